@@ -1,6 +1,7 @@
 package vc
 
 import (
+	"go/constant"
 	"fmt"
 	"go/token"
 	"go/types"
@@ -358,11 +359,46 @@ func (g *FuncGen) execBinOp(x *ssa.BinOp) {
 	}
 	_, _, bits, signed := intRange(bt)
 	var e string
+	// interval analysis: when the operand ranges (from narrow source types) show the exact result fits the
+	// result type, the machine operation is the mathematical one and no wrap-around term is needed
+	noWrap := func(op token.Token) bool {
+		alo, ahi, ok1 := g.rangeOf(x.X)
+		blo, bhi, ok2 := g.rangeOf(x.Y)
+		if !ok1 || !ok2 {
+			return false
+		}
+		var lo, hi *big.Int
+		switch op {
+		case token.ADD:
+			lo, hi = new(big.Int).Add(alo, blo), new(big.Int).Add(ahi, bhi)
+		case token.SUB:
+			lo, hi = new(big.Int).Sub(alo, bhi), new(big.Int).Sub(ahi, blo)
+		default:
+			return false
+		}
+		tlo, thi, _, _ := intRange(bt)
+		if lo.Cmp(tlo) < 0 || hi.Cmp(thi) > 0 {
+			return false
+		}
+		if g.rng == nil {
+			g.rng = map[ssa.Value][2]*big.Int{}
+		}
+		g.rng[x] = [2]*big.Int{lo, hi}
+		return true
+	}
 	switch x.Op {
 	case token.ADD:
-		e = g.sc.wrap(t, fmt.Sprintf("(+ %s %s)", a, b))
+		if noWrap(token.ADD) {
+			e = fmt.Sprintf("(+ %s %s)", a, b)
+		} else {
+			e = g.sc.wrap(t, fmt.Sprintf("(+ %s %s)", a, b))
+		}
 	case token.SUB:
-		e = g.sc.wrap(t, fmt.Sprintf("(- %s %s)", a, b))
+		if noWrap(token.SUB) {
+			e = fmt.Sprintf("(- %s %s)", a, b)
+		} else {
+			e = g.sc.wrap(t, fmt.Sprintf("(- %s %s)", a, b))
+		}
 	case token.MUL:
 		e = g.sc.wrap(t, fmt.Sprintf("(* %s %s)", a, b))
 	case token.QUO:
@@ -1001,4 +1037,39 @@ func (g *FuncGen) execReturn(x *ssa.Return) {
 		res = append(res, g.val(r))
 	}
 	g.checkExit(res, x.Pos())
+}
+
+// rangeOf returns a static interval for an integer SSA value when one follows from narrow source types
+// (conversions from 8/16/32-bit values, constants, sums/differences of such); ok=false when only the
+// full 64-bit range is known.
+func (g *FuncGen) rangeOf(v ssa.Value) (lo, hi *big.Int, ok bool) {
+	if r, have := g.rng[v]; have {
+		return r[0], r[1], true
+	}
+	if c, isC := v.(*ssa.Const); isC && c.Value != nil && c.Value.Kind() == constant.Int {
+		if b, okb := new(big.Int).SetString(c.Value.ExactString(), 10); okb {
+			return b, b, true
+		}
+	}
+	bt, isI := isInt(v.Type())
+	if !isI {
+		return nil, nil, false
+	}
+	if cv, isConv := v.(*ssa.Convert); isConv {
+		if fb, okf := isInt(cv.X.Type()); okf {
+			flo, fhi, _, _ := intRange(fb)
+			tlo, thi, _, _ := intRange(bt)
+			if flo.Cmp(tlo) >= 0 && fhi.Cmp(thi) <= 0 {
+				// value-preserving conversion: the source's range
+				if l, h, okx := g.rangeOf(cv.X); okx {
+					return l, h, true
+				}
+			}
+		}
+	}
+	tlo, thi, bits, _ := intRange(bt)
+	if bits <= 32 {
+		return tlo, thi, true
+	}
+	return nil, nil, false
 }
